@@ -20,7 +20,7 @@ LEVEL_NOTE = ("Trusted: starlette/instrumentation shims, virtual clock, store su
               "Faults beyond the configured backoff budget are exempt (the store is down) and only counted.")
 DESIGN_REF = "§5 C15"
 RULE = "case = (outcomes-family program, store kind, fault plan); distinct = hash of (tick-order signature, fault plan); non-trivial = the run ended"
-REQUIRED_REACH = ["run_ended", "ended_result", "ended_failed", "ended_cancelled", "ended_timeout", "status_history_eval", "fault_injected", "store_sqlite", "store_memory"]
+REQUIRED_REACH = ["run_ended", "ended_result", "ended_failed", "ended_cancelled", "ended_timeout", "status_history_eval", "fault_injected", "store_sqlite", "store_memory", "slow_store", "hitl_case", "hitl_run_ended", "hitl_send_near_terminal"]
 ASSUMPTIONS = ["persistence_backoff=[0.5, 3]: up to 2 consecutive failures of one write are 'transient'"]
 
 
@@ -56,7 +56,8 @@ def gen_case(seed):
         c = b + rnd.randint(2, 4)
         faults = [{"method": "append_event", "from": a, "count": 1}, {"method": "append_event", "from": b, "count": 1},
                   {"method": "append_event", "from": c, "count": 1}, {"method": "update", "from": rnd.randint(2, 3), "count": 1}]
-    return {"seed": seed, "spec": spec, "store": rnd.choice(["sqlite", "memory"]), "faults": faults, "fault_style": style, "cancel_at": cancel_at}
+    return {"seed": seed, "spec": spec, "store": rnd.choice(["sqlite", "memory"]), "faults": faults, "fault_style": style, "cancel_at": cancel_at,
+            "store_latency": rnd.choice([None, None, None, 0.05, 0.3])}
 
 
 TERMINAL_STATUS = ("completed", "failed", "cancelled")
@@ -73,7 +74,9 @@ def run_one(case, acc):
         log = []
 
         async def main():
-            store = sr.fault_store(case["store"], os.path.join(d, "c.db"), faults=case["faults"], log=log)
+            store = sr.fault_store(case["store"], os.path.join(d, "c.db"), faults=case["faults"], log=log, latency=case.get("store_latency"))
+            if case.get("store_latency"):
+                acc.hit("slow_store")
             proc = await sr.Proc(case["spec"], store).start()
             await proc.start_run("h1", cs.tr.rec)
             if case["cancel_at"] is not None:
@@ -156,6 +159,89 @@ def run_one(case, acc):
         shutil.rmtree(d, ignore_errors=True)
 
 
+def gen_hitl(seed):
+    """a run waiting for human answers; every answer is sent by two clients (same instant or slightly apart), plus stray
+    sends around the moment the last answer ends the run; slow store optional.  Decides: a terminal status is never
+    overwritten by a send that was accepted while the run was still waiting."""
+    from vf import idle_cases as ic
+
+    rnd = random.Random(seed)
+    spec, keys = ic.gen_program(rnd, n=rnd.randint(1, 2))
+    spec["sched_seed"] = seed
+    lat = rnd.choice([None, 0.05, 0.1, 0.3])
+    t0 = 4.0 + 12 * (lat or 0)
+    sends = []
+    for i, k in enumerate(keys):
+        at = t0 + i * rnd.choice([0, 0.5, 2.0])
+        sends.append({"at": at, "key": k})
+        for _ in range(rnd.randint(2, 4)):
+            sends.append({"at": at + rnd.choice([0, 0, 0.001, 0.05, 0.2, 0.4, 0.6, 0.9, 1.2]), "key": k})
+    return {"seed": seed, "kind": "hitl", "spec": spec, "keys": keys, "store": rnd.choice(["sqlite", "memory"]), "store_latency": lat, "sends": sends,
+            "idle_timeout": rnd.choice([1000.0, 1000.0, 1.0])}
+
+
+def run_hitl(case, acc):
+    from vf import boot
+    from vf import server_run as sr
+
+    d = boot.scratch_dir()
+    try:
+        cs = sr.Case(case["spec"])
+        out = {}
+        log = []
+
+        async def main():
+            store = sr.fault_store(case["store"], os.path.join(d, "c.db"), log=log, latency=case.get("store_latency"))
+            proc = await sr.Proc(case["spec"], store, idle_timeout=case["idle_timeout"]).start()
+            await proc.start_run("h1", cs.tr.rec)
+
+            async def send_at(sd):
+                await asyncio.sleep(sd["at"])
+                await proc.send("h1", "Answer", {"key": sd["key"]}, cs.tr.rec)
+
+            tasks = [asyncio.ensure_future(send_at(sd)) for sd in case["sends"]]
+            await asyncio.sleep(300)
+            out["h"] = sr.handler_view(await proc.handler("h1"))
+
+        cs.phase(main)
+        acc.case()
+        acc.hit("hitl_case")
+        if case.get("store_latency"):
+            acc.hit("slow_store")
+        wit = {"case": case}
+        ph = cs.phases[-1]
+        if ph["exc"] is not None and "h" not in out:
+            acc.inconclusive.append(f"hitl case crashed seed={case['seed']}: {ph['exc'][:300]}")
+            return
+        hist = [e for e in log if e["k"] == "status" and e["handler"] == "h1"]
+        acc.hit("status_history_eval")
+        seen_terminal = None
+        for e in hist:
+            if seen_terminal and e["status"] == "running":
+                acc.hit("hitl_send_after_terminal")
+                acc.violation({"mech": "terminal_status_changed_back_to_running", "from": seen_terminal, "scenario": "duplicate_senders"},
+                              f"two clients answering the same prompt: handler status history {[x['status'] for x in hist]}", wit)
+                break
+            if e["status"] in TERMINAL_STATUS:
+                seen_terminal = e["status"]
+        if seen_terminal:
+            t_term = next(x["t"] for x in hist if x["status"] in TERMINAL_STATUS)
+            if any(e["t"] > t_term for e in hist):
+                acc.hit("hitl_write_after_terminal")
+            if any(t_term - 1.0 <= sd["at"] <= t_term + 0.05 for sd in case["sends"]):
+                acc.hit("hitl_send_near_terminal")  # a send accepted around the instant the terminal status was stored
+        hv = out.get("h")
+        ended = any(t["exit"] for t in cs.tr.ticks)
+        if ended:
+            acc.hit("hitl_run_ended")
+            if hv is None or hv["status"] != "completed":
+                acc.violation({"mech": "handler_status_does_not_match_outcome", "outcome": "result", "status": hv and hv["status"], "scenario": "duplicate_senders"},
+                              f"the run ended with its StopEvent but the stored handler is {hv}; history {[x['status'] for x in hist]}", wit)
+        acc.sig(h({"hitl": case["seed"]}))
+    finally:
+        shutil.rmtree(d, ignore_errors=True)
+
+
 def _loop_dead(tr):
     """all control-loop runners of this case have no worker tasks and at least one tick was processed"""
     return all(len(r.worker_tasks) == 0 for r in tr.runners)
@@ -165,10 +251,14 @@ def run_shard(shard):
     acc = Acc()
     for i in range(shard["n"]):
         run_one(gen_case(shard["seed"] + i), acc)
+        run_hitl(gen_hitl(shard["seed"] + 5000 + i), acc)
     return acc.to_dict()
 
 
 def replay(rp):
     acc = Acc()
+    if rp["case"]["case"].get("kind") == "hitl":
+        run_hitl(rp["case"]["case"], acc)
+        return acc.to_dict()
     run_one(rp["case"]["case"], acc)
     return acc.to_dict()
